@@ -35,7 +35,8 @@ check("C13", "Validator-side gates of the rebroadcast mechanism: an accepted blo
       "trusted: mirsym semantics, map and utxo-key models", "MIR-to-SMT symbolic execution (mirsym) decided by z3", "DESIGN.md 4/C13")
 NOT_APPLICABLE.setdefault('C14', NA_PENDING)
 NOT_APPLICABLE.setdefault('C15', NA_PENDING)
-NOT_APPLICABLE.setdefault('C16', NA_PENDING)
+check("C16", "One selection round of the block-fetch scheduler from any queue state satisfying the in-flight invariant: in-flight count stays within the batch size, returned blocks are exactly the Queued entries put in flight, in increasing height order, never one already in flight; a failing block is re-queued only while its retry counter is below 500 and the counter is bounded; a Queued block is left waiting only when the quota is used up. Decided by z3 over the MIR for queues of up to 3 (4) entries.",
+      "trusted: mirsym semantics and container models; queue pre-sorted (sort modelled as identity); other scheduler operations and liveness outside", "MIR-to-SMT symbolic execution (mirsym) decided by z3; inductive step from an arbitrary invariant state", "DESIGN.md 4/C16")
 NOT_APPLICABLE.setdefault('C17', NA_PENDING)
 NOT_APPLICABLE.setdefault('C18', NA_PENDING)
 NOT_APPLICABLE.setdefault('C19', NA_PENDING)
